@@ -204,11 +204,11 @@ def run(tier, seed):
     fcases = ['{| fr_parser := %s; fr_taken := %s; fr_name := %s; fr_out := %s |}' % (coq_bool(p), coq_list([coq_str(t) for t in tk]), coq_str(n), coq_str(o)) for p, tk, n, o in fc]
     rep.evaluations += len(fcases)
     tie_broken = []
-    if proof['ok']:
+    if proof['ok'] or proof['extra_ok']:
         f = common.run_cases(PID, 'fresh', PRE, fcases, 'frcase_ok', shard=800)
         if f:
             tie_broken.append('fresh-name model differs from the implementation on %d cases, first: %r' % (len(f), fc[f[0]]))
-    else:
+    if not proof['ok']:
         tie_broken.append('theorem file does not build: %s' % proof['failed_at'])
     if proof['bad']:
         tie_broken.append('forbidden tokens: %r' % proof['bad'])
